@@ -8,7 +8,7 @@ from .terms import ident
 # model -> relationship -> (cardinality, target model)
 REL = {
     "Item": {"owner": ("one", "Owner"), "parts": ("many", "Part"), "tags": ("many", "Tag")},
-    "Owner": {"org": ("one", "Org"), "items": ("many", "Item")},
+    "Owner": {"org": ("one", "Org"), "region": ("one", "Region"), "items": ("many", "Item")},
     "Org": {"region": ("one", "Region"), "owners": ("many", "Owner")},
     "Tag": {"items": ("many", "Item")},
     "Part": {"item": ("one", "Item")},
@@ -49,7 +49,8 @@ def instances(draw):
              "region": draw(opt(st.integers(1, n_reg))) if n_reg else None} for i in range(n_org)]
     owners = [{"id": i + 1, "name": draw(opt(st.sampled_from(NAMES), 4)), "age": draw(opt(st.sampled_from(SMALL), 4)),
                "rank": draw(st.sampled_from(SMALL)),
-               "org": draw(opt(st.integers(1, n_org))) if n_org else None} for i in range(n_own)]
+               "org": draw(opt(st.integers(1, n_org))) if n_org else None,
+               "region": draw(opt(st.integers(1, n_reg))) if n_reg else None} for i in range(n_own)]
     tags = [{"id": i + 1, "label": draw(st.sampled_from(NAMES)), "n": draw(st.sampled_from(SMALL))} for i in range(n_tag)]
     items = []
     parts = []
@@ -186,11 +187,11 @@ def make_resolver(graph, model, obj, env, mode, notes):
     return resolve
 
 
-def verdict(t, graph, item):
+def verdict(t, graph, item, model="Item"):
     notes = set()
     res = {}
     for mode in ("odata", "sql"):
-        c = evalref.Ctx(None, mode, notes, make_resolver(graph, "Item", item, {}, mode, notes))
+        c = evalref.Ctx(None, mode, notes, make_resolver(graph, model, item, {}, mode, notes))
         try:
             res[mode] = evalref.ev(t, c)
         except (TypeError, ValueError, KeyError):
@@ -212,12 +213,19 @@ def path_of(segs):
     return t
 
 
-TO_ONE_PATHS = {  # from Item: path segments -> target model
-    ("owner",): "Owner", ("owner", "org"): "Org", ("owner", "org", "region"): "Region",
+ROOTS = {
+    "Item": {"to_one": {("owner",): "Owner", ("owner", "org"): "Org", ("owner", "org", "region"): "Region",
+                        ("owner", "region"): "Region"},
+             "colls": {("parts",): "Part", ("tags",): "Tag", ("owner", "items"): "Item",
+                       ("owner", "org", "owners"): "Owner"},
+             "scalars": ["i1", "i2", "s1", "k"]},
+    "Owner": {"to_one": {("org",): "Org", ("org", "region"): "Region", ("region",): "Region"},
+              "colls": {("items",): "Item", ("org", "owners"): "Owner"},
+              "scalars": ["name", "age", "rank"]},
+    "Tag": {"to_one": {}, "colls": {("items",): "Item"}, "scalars": ["label", "n"]},
 }
-COLLECTIONS = {  # from Item: path segments -> child model
-    ("parts",): "Part", ("tags",): "Tag", ("owner", "items"): "Item", ("owner", "org", "owners"): "Owner",
-}
+TO_ONE_PATHS = ROOTS["Item"]["to_one"]
+COLLECTIONS = ROOTS["Item"]["colls"]
 NESTED = {  # child model -> collections reachable from a lambda variable
     "Tag": {("items",): "Item"}, "Item": {("parts",): "Part", ("tags",): "Tag"},
     "Owner": {("items",): "Item"}, "Part": {},
@@ -294,23 +302,27 @@ def lam(draw, owner_segs, child_model, depth, cfg, inner_var=None):
 
 
 @st.composite
-def rel_pred(draw, depth, cfg):
+def rel_pred(draw, depth, cfg, root="Item"):
+    R = ROOTS[root]
+    TO_ONE_PATHS, COLLECTIONS = R["to_one"], R["colls"]   # noqa: N806 (shadow the Item defaults)
     c = draw(st.integers(0, 99))
+    if not TO_ONE_PATHS and (27 <= c < 30 or 45 <= c < 65):
+        c = 70        # this root has no to-one relationships: draw a collection predicate instead
     if depth > 0 and c < 22:
-        return ("bool", draw(st.sampled_from(["and", "or"])), draw(rel_pred(depth - 1, cfg)),
-                draw(rel_pred(depth - 1, cfg)))
+        return ("bool", draw(st.sampled_from(["and", "or"])), draw(rel_pred(depth - 1, cfg, root)),
+                draw(rel_pred(depth - 1, cfg, root)))
     if depth > 0 and c < 27:
-        return ("un", "not", draw(rel_pred(depth - 1, cfg)))
+        return ("un", "not", draw(rel_pred(depth - 1, cfg, root)))
     if depth > 0 and c < 30:
         # a negated conjunction of a to-one path comparison and a plain comparison (no or / null / lambda
         # anywhere): true for a parent whose foreign key is NULL as soon as the plain conjunct is false
         segs, tm = draw(st.sampled_from(sorted(TO_ONE_PATHS.items())))
         a = draw(scalar_cmp(list(segs), tm))
-        b = draw(scalar_cmp([], "Item", ["i1", "i2", "s1", "k"]))
+        b = draw(scalar_cmp([], root, R["scalars"]))
         pair = (a, b) if draw(st.booleans()) else (b, a)
         return ("un", "not", ("bool", "and", pair[0], pair[1]))
     if c < 45:
-        return draw(scalar_cmp([], "Item", ["i1", "i2", "s1", "k"]))
+        return draw(scalar_cmp([], root, R["scalars"]))
     if c < 65:
         segs, tm = draw(st.sampled_from(sorted(TO_ONE_PATHS.items())))
         k = draw(st.integers(0, 9))
@@ -345,3 +357,39 @@ def features(t):
         if x[0] == "bool" and x[1] == "or" and any(y[0] in ("path", "lambda") for y in walk(x)):
             out.add("disjunction_with_navigation")
     return out
+
+
+def to_one_hops(t, root="Item"):
+    """{path prefix (tuple of segments): target model} for every to-one hop navigated outside lambda bodies."""
+    hops = {}
+
+    def add(segs):
+        m = root
+        for i, sname in enumerate(segs):
+            r = REL.get(m, {}).get(sname)
+            if not r or r[0] != "one":
+                break
+            m = r[1]
+            hops[tuple(segs[:i + 1])] = m
+
+    def go(x):
+        if x[0] == "lambda":
+            add(segments(x[1]))
+            return
+        if x[0] == "path":
+            add(segments(x))
+            return
+        if x[0] == "id":
+            add([x[1]])
+            return
+        from .terms import children
+        for c in children(x):
+            go(c)
+    go(t)
+    return hops
+
+
+def same_model_twice(t, root="Item"):
+    """Does the filter reach one entity type through two different to-one paths (known finding A8)?"""
+    models = list(to_one_hops(t, root).values())
+    return len(models) != len(set(models))
